@@ -50,7 +50,7 @@ func verifSameAnswer(a *Route, pa Params, alma []string, b *Route, pb Params, al
 	if a == nil {
 		return ok
 	}
-	ok = verifAnd(ok, a.name == b.name && a.path == b.path && len(a.handlers) == len(b.handlers) && verifSameStrings(a.methods, b.methods))
+	ok = verifAnd(ok, a.Name() == b.Name() && a.Path() == b.Path() && len(a.Handlers()) == len(b.Handlers()) && verifSameStrings(a.Methods(), b.Methods()))
 	if len(pa) != len(pb) {
 		return false
 	}
